@@ -9,6 +9,7 @@ import (
 
 	"github.com/cossacklabs/acra/keystore"
 	"github.com/cossacklabs/acra/keystore/filesystem"
+	"github.com/cossacklabs/themis/gothemis/keys"
 
 	"verifharness/internal/core"
 )
@@ -113,6 +114,49 @@ func runV1Shared(r *core.Run) {
 		}
 		os.RemoveAll(tmp)
 	}
+}
+
+// runV1Aliasing is the deterministic witness of repo-patches/05 (regression corpus): with a cache of
+// size 1 a caller that still holds key A while key B is fetched must keep a correct key A (the cache
+// used to share its slices with callers and wipes them on eviction).
+func runV1Aliasing(r *core.Run) {
+	tmp, err := os.MkdirTemp("", "verif-c17v1a-")
+	if err != nil {
+		panic("harness: " + err.Error())
+	}
+	defer os.RemoveAll(tmp)
+	dir := filepath.Join(tmp, "ks")
+	os.MkdirAll(dir, 0o700)
+	enc, _ := keystore.NewSCellKeyEncryptor([]byte("c17-v1-master-key-0123456789abcd"))
+	ks, err := filesystem.NewFileSystemKeyStoreWithCacheSize(dir, enc, 1)
+	if err != nil {
+		panic("harness: " + err.Error())
+	}
+	a, b := []byte("client_a"), []byte("client_b")
+	for _, id := range [][]byte{a, b} {
+		must(ks.GenerateDataEncryptionKeys(id))
+	}
+	ref, _ := filesystem.NewFileSystemKeyStoreWithCacheSize(dir, enc, keystore.WithoutCache)
+	wantA, _ := ref.GetClientIDEncryptionPublicKey(a)
+	r.Begin("v1alias:public", true, "mode:v1-alias")
+	ks.Reset()
+	pa, err1 := ks.GetClientIDEncryptionPublicKey(a) // miss: loaded and cached
+	_, err2 := ks.GetClientIDEncryptionPublicKey(b)  // evicts a
+	ok := err1 == nil && err2 == nil && pa != nil && bytes.Equal(pa.Value, wantA.Value)
+	r.Check(ok, "v1-cache-aliasing", fmt.Sprintf("v1 key store, cache size 1: the public key of client_a held by the caller changed to %x after client_b's key was fetched (want %x)", valueOf(pa), wantA.Value))
+	r.Begin("v1alias:public-hit", true, "mode:v1-alias")
+	pa1, _ := ks.GetClientIDEncryptionPublicKey(a) // miss (b cached) -> cached
+	pa2, _ := ks.GetClientIDEncryptionPublicKey(a) // hit
+	_, _ = ks.GetClientIDEncryptionPublicKey(b)    // evicts a
+	r.Check(pa1 != nil && pa2 != nil && bytes.Equal(pa1.Value, wantA.Value) && bytes.Equal(pa2.Value, wantA.Value), "v1-cache-aliasing",
+		fmt.Sprintf("v1 key store, cache size 1: public keys of client_a handed out earlier were wiped by a later eviction: %x / %x", valueOf(pa1), valueOf(pa2)))
+}
+
+func valueOf(p *keys.PublicKey) []byte {
+	if p == nil {
+		return nil
+	}
+	return p.Value
 }
 
 func must(err error) {
